@@ -12,6 +12,13 @@ from ..bfs import APIS, CtxCheck
 from ..ctxuniverse import KEYS, LOOKUPS, Universe
 
 
+class _Race19(__import__("vk.checks.c19", fromlist=["Race"]).Race):
+    id = "C04"
+
+
+_R19 = _Race19()
+
+
 class C04(CtxCheck):
     id = "C04"
     engine = "E2+E1"
@@ -48,9 +55,26 @@ class C04(CtxCheck):
     def units(self, tier: str, seed: int) -> list:
         from .c04race import race_units
 
-        return super().units(tier, seed) + race_units(tier) + [{"dispatch_raises": api} for api in ("nowait", "async", "inject")]
+        from . import reent
+        from .c19 import RACE as R19
+
+        # race19: two/three tasks in their own child contexts call ONE injected coroutine function with two injected parameters
+        # (the product handed to a call must be the one of the context the call was made in)
+        return (super().units(tier, seed) + race_units(tier) + [{"dispatch_raises": api} for api in ("nowait", "async", "inject")]
+                + reent.units(tier) + [{"race19": u} for u in R19.units(tier, seed)])
 
     def work(self, unit: dict, tier: str) -> dict:
+        if "reent" in unit:
+            from . import reent
+
+            return reent.work(unit, None)
+        if "race19" in unit:
+            s = _R19.work(unit["race19"], tier)
+            for v in s["violations"]:
+                v["program"] = {"race19": v["program"]["race"]}
+                v["keys"] = ["generated-scope" if k == "cross-talk" else k for k in v["keys"]]
+            s["keyhist"] = {("generated-scope" if k == "cross-talk" else k): n for k, n in s.get("keyhist", {}).items()}
+            return s
         if "dispatch_raises" in unit:
             return self.dispatch_raises_unit(unit)
         if "race" in unit:
@@ -123,6 +147,12 @@ class C04(CtxCheck):
         return s
 
     def replay(self, rec: dict) -> Any:
+        if "reent" in rec.get("program", {}):
+            from . import reent
+
+            return reent.replay(rec, self.id, None)
+        if "race19" in rec.get("program", {}):
+            return _R19.replay(dict(rec, program=rec["program"]["race19"]))
         if "dispatch_raises" in rec.get("program", {}):
             s = self.dispatch_raises_unit(rec["program"])
             for v in s["violations"]:
